@@ -76,6 +76,19 @@ Proof.
   unfold spec_full. destruct (spec_sums ms) as [[a b] c]. reflexivity.
 Qed.
 
+(* names that are attributes or methods of the record but not fields are rejected like any
+   other unknown name -- before anything is read, so whatever state the process is in *)
+Definition attr_like_names : list bytes :=
+  [bs "count"; bs "index"; bs "_fields"; bs "_asdict"; bs "_make"; bs "_replace"; bs "_field_defaults";
+   bs "__class__"; bs "__len__"; bs "__doc__"; bs "__getitem__"; bs "__dict__"; bs "__slots__"; bs "__add__"; bs ""].
+Theorem percent_attr_names_rejected name mi mfi total :
+  In name attr_like_names -> memory_percent name mi mfi total = Exc ValueError.
+Proof.
+  intros H. apply percent_invalid. apply index_of_none.
+  unfold attr_like_names in H.
+  repeat (destruct H as [<-|H]; [vm_compute; reflexivity|]). destruct H.
+Qed.
+
 (* ------------------------------------------------ lines psutil must ignore *)
 (* the full line set of a current kernel is inside the grammar, whatever the values of the
    lines that are not figures (SwapPss, Pss_Anon/File/Shmem, Pss_Dirty, *Hugetlb, Locked,
